@@ -28,3 +28,19 @@ PROPS["C37"] = {
     "tiers": tiers("c37", qbounds="no loop in the kernel; from_new harness: 5 calls, limit <= 3, unwind 6; all Duration/u32 values",
                    tbounds="same (the claim is already over all values)"),
 }
+
+PROPS["C06"] = {
+    "module": "c06_convert",
+    "level": MC,
+    "technique": "Kani/CBMC symbolic execution of Variant::convert / Variant::cast over every bit pattern of each numeric source type, symbolic target type; reference oracle in i128 / exact f64 steps",
+    "kernels": ["opcua::types::variant::Variant::convert", "opcua::types::variant::Variant::cast", "cast_to_integer!", "cast_to_bool!"],
+    "explanation": "For each of the 11 numeric source types (Boolean, 8 integer types, Float, Double) the source value is one fully symbolic "
+                   "machine word and the target type is symbolic over the 10 numeric types. convert: the result is Empty or has the target type and "
+                   "denotes the same number (i128 compare; nearest float by bit pattern) and is Empty whenever the value is out of range. cast: in "
+                   "addition an in-range value must yield a result; from Float/Double the result must be one of the integers nearest to the exact "
+                   "value (either neighbour accepted at exact ties), and Empty exactly when every nearest integer is out of range (NaN, infinities, huge values included). "
+                   "No value bound: the claim is for every bit pattern.",
+    "outside": "String sources/targets (regex and number parsing/formatting are stubbed out: Regex::new -> assume(false), fmt::format -> empty), arrays, Boolean as a target",
+    "assumptions": ["paths through regex::Regex::new are cut (assume(false)); alloc::fmt::format returns an empty String"],
+    "tiers": tiers("c06", qbounds="no loops in the kernels (unwind 3 only bounds drop/clone glue); all 2^8..2^64 source values x 10 target types per harness"),
+}
